@@ -734,11 +734,14 @@ void File::uncompressedFile2ReadWriteQueue() {
         m_uncompressedFile.seekg(tmp);
     }
 
+    /* the object belongs to the application as soon as it is in the queue: look at it before */
+    const bool countObject = (obj->objectType != ObjectType::Unknown115);
+
     /* push data into readWriteQueue */
     m_readWriteQueue.write(obj);
 
     /* statistics */
-    if (obj->objectType != ObjectType::Unknown115)
+    if (countObject)
         currentObjectCount++;
 
     /* drop old data */
